@@ -17,7 +17,7 @@ RUN = re.compile(r"^\(run out=([0-9a-f]*) status=(-?\d+) diag=(.*)\)$")
 
 def explore(ctx):
     h = common.hexs
-    n = 150 if ctx.quick else 4000
+    n = 400 if ctx.quick else 4000
     cases = []
     dist = {}
     for k in range(n):
@@ -37,6 +37,23 @@ def explore(ctx):
                  "RUNBIN %s %s rel" % (h("prog"), h("main.scm"))]
         cases.append({"lines": lines, "forms": forms, "fault": kind, "fault_index": idx, "eol": repr(eol), "final_newline": final})
         dist[kind or "no fault"] = dist.get(kind or "no fault", 0) + 1
+    # files larger than the usual buffer sizes with a multi-byte character (or a CR LF pair) lying across a block boundary
+    for boundary in ([4096, 8192, 16384] if ctx.quick else [512, 1024, 4096, 8192, 16384, 32768, 65536, 131072]):
+        for ch in ("\u00e9", "\u4e2d", "\U0001f600", "\r\n"):
+            for back in range(1, len(ch.encode())):
+                for eol in ("\n", "\r\n"):
+                    if ch == "\r\n" and eol == "\n":
+                        continue
+                    if ch == "\r\n":
+                        text = gen.boundary_file(ctx.rng, boundary, "q\r\n", 2, eol)      # CR just before the offset, LF on it
+                    else:
+                        text = gen.boundary_file(ctx.rng, boundary, ch, back, eol)
+                    lf = text.replace("\r\n", "\n")
+                    lines = ["FILE %s %s %s" % (h("prog"), h("main.scm"), h(text)), "RUNBIN %s %s" % (h("prog"), h("main.scm")),
+                             "NEW 0 plain", "EVAL 0 " + h(lf)]
+                    cases.append({"lines": lines, "forms": ["<%d bytes, %r %d byte(s) before offset %d>" % (len(text.encode()), ch, back, boundary)],
+                                  "fault": None, "fault_index": None, "eol": repr(eol), "final_newline": True})
+                    dist["block boundary"] = dist.get("block boundary", 0) + 1
     # special files
     for content, name in (("", "empty"), ("(import (scheme write))(display 1)", "one-line"), ("; only a comment", "comment")):
         cases.append({"lines": ["FILE %s %s %s" % (h("prog"), h("main.scm"), h(content)), "RUNBIN %s %s" % (h("prog"), h("main.scm")),
@@ -85,11 +102,12 @@ def explore(ctx):
                 "line ends, with or without final newline, named by an absolute and by a relative path; written to a scratch "
                 "directory and run through the built binary from ANOTHER working directory: stdout bytes, exit status and "
                 "the diagnostic's location vs the model; stdout vs in-process evaluation of the same text; the same program "
-                "with the other line-end convention and final-newline choice must give the same result; plus empty, "
+                "with the other line-end convention and final-newline choice must give the same result; plus files of 4-130 KiB in which a 2-, 3- or 4-byte character "
+                "or a CR LF pair lies across a power-of-two byte offset; plus empty, "
                 "comment-only, non-UTF-8, directory and missing files. non-trivial = program with a failing form",
         "exhaustive": False,
         "input_distribution": dist,
-        "samples": [{"forms": c["forms"][:5], "fault": c["fault"], "model": r[0][1], "impl": r[1][1]} for c, r in
+        "samples": [{"forms": c["forms"][:5], "fault": c["fault"], "model": r[0][min(1, len(r[0]) - 1)], "impl": r[1][min(1, len(r[1]) - 1)]} for c, r in
                     list(zip(cases, results))[:: max(1, len(cases) // 4)]][:4],
     }
 
